@@ -199,61 +199,66 @@ Definition main_setup : sblk :=
   (SOpq 183
   (SCall (Point (-6))
   (SOpq 256
+  (SIf (COpq 283)
+    (SOpq 284
+    (SReturn 0))
+    (SDone)
+  (SOpq 290
   (SCall (Point (-7))
-  (SOpq 368
-  (SIf (COpq 387)
-    (SOpq 393
-    (SIf (COpq 405)
-      (SOpq 406
-      (SOpq 407
-      (SOpq 408
-      (SOpq 410
-      (SOpq 413
-      (SOpq 414
-      (SOpq 415
-      (SOpq 417
-      (SOpq 418
-      (SOpq 419
+  (SOpq 382
+  (SIf (COpq 401)
+    (SOpq 407
+    (SIf (COpq 419)
+      (SOpq 420
+      (SOpq 421
+      (SOpq 422
       (SOpq 424
-      (SOpq 426
       (SOpq 427
       (SOpq 428
+      (SOpq 429
+      (SOpq 431
+      (SOpq 432
+      (SOpq 433
+      (SOpq 438
+      (SOpq 440
+      (SOpq 441
+      (SOpq 442
       (SDone)))))))))))))))
       (SDone)
     (SDone)))
     (SDone)
-  (SIf (COpq 433)
-    (SOpq 434
-    (SOpq 435
-    (SOpq 439
-    (SOpq 442
-    (SOpq 443
-    (SOpq 444
-    (SOpq 446
+  (SIf (COpq 447)
+    (SOpq 448
+    (SOpq 449
+    (SOpq 453
+    (SOpq 456
+    (SOpq 457
     (SOpq 458
+    (SOpq 460
+    (SOpq 472
     (SDone)))))))))
     (SDone)
   (SCall (Point (-8))
-  (SOpq 471
-  (SIf (COpq 481)
-    (SOpq 490
+  (SOpq 485
+  (SIf (COpq 495)
+    (SOpq 504
     (SDone))
-    (SOpq 499
-    (SIf (COpq 515)
-      (SOpq 517
-      (SIf (COpq 522)
-        (SOpq 523
+    (SOpq 513
+    (SIf (COpq 529)
+      (SOpq 531
+      (SIf (COpq 536)
+        (SOpq 537
         (SReturn 0))
         (SDone)
-      (SIf (COpq 526)
-        (SOpq 527
+      (SIf (COpq 540)
+        (SOpq 541
         (SReturn 0))
         (SDone)
       (SDone))))
-      (SIf (COpq 533)
-        (SOpq 534
+      (SIf (COpq 547)
+        (SOpq 548
         (SDone))
-        (SOpq 539
+        (SOpq 553
         (SReturn 0))
       (SDone))
     (SDone)))
@@ -264,130 +269,131 @@ Definition main_setup : sblk :=
     (SDone)))
     (SDone)
   (SCall (Point (-10))
-  (SOpq 553
+  (SOpq 567
   (SCall (Point (-11))
-  (SOpq 558
-  (SIf (COpq 565)
-    (SOpq 566
-    (SOpq 567
-    (SOpq 568
+  (SOpq 572
+  (SIf (COpq 579)
+    (SOpq 580
+    (SOpq 581
+    (SOpq 582
     (SDone))))
     (SDone)
   (SCall (Point (-12))
-  (SOpq 615
+  (SOpq 629
   (SCall (Point (-13))
-  (SOpq 674
+  (SOpq 688
   (SCall (Point (-14))
-  (SOpq 700
+  (SOpq 714
   (SCall (Point (-15))
-  (SOpq 706
-  (SIf (COpq 710)
-    (SOpq 712
-    (SIf (COpq 713)
-      (SOpq 715
+  (SOpq 720
+  (SIf (COpq 724)
+    (SOpq 726
+    (SIf (COpq 727)
+      (SOpq 729
       (SReturn 0))
       (SDone)
-    (SOpq 720
+    (SOpq 734
     (SDone))))
-    (SOpq 738
+    (SOpq 752
     (SDone))
   (SCall (Point (-16))
-  (SOpq 750
+  (SOpq 764
   (SCall (Point (-17))
-  (SOpq 758
+  (SOpq 772
   (SCall (Point (-18))
-  (SOpq 767
+  (SOpq 781
   (SCall (Point (-19))
-  (SOpq 777
+  (SOpq 791
   (SCall (Point (-20))
-  (SOpq 807
+  (SOpq 821
   (SCall (Point (-21))
   (SCall (Point (-22))
-  (SOpq 884
-  (SIf (COpq 885)
-    (SOpq 887
+  (SOpq 898
+  (SIf (COpq 899)
+    (SOpq 901
     (SCall (Point (-23))
     (STry
-      (SOpq 891
+      (SOpq 905
       (SCall (Point (-24))
-      (SOpq 894
+      (SOpq 908
       (SCall (Point (-25))
-      (SOpq 897
+      (SOpq 911
       (SCall (Point (-26))
       (SDone)))))))
-      (SOpq 906
+      (SOpq 920
       (SSetAbort
       (SDone)))
     (SDone))))
-    (SIf (COpq 919)
-      (SOpq 920
+    (SIf (COpq 933)
+      (SOpq 934
       (SDone))
-      (SOpq 922
+      (SOpq 936
       (SReturn 0))
     (SDone))
   (SCall (Point (-27))
-  (SOpq 928
-  (SDone))))))))))))))))))))))))))))))))))))))))))))))))))))))).
+  (SOpq 942
+  (SDone))))))))))))))))))))))))))))))))))))))))))))))))))))))))).
 (* opaque conditions of the set-up: (n, text) *)
 Definition setup_conds : list (Z * string) :=
   [(96, "!opts.parse(argc, argv)"%string);
    (112, "ofname.empty() && !opts.getForceRun()"%string);
-   (387, "fpclassify(gap) == 2"%string);
-   (405, "verbose && use_csr"%string);
-   (433, "verbose"%string);
-   (481, "startdistfile.empty()"%string);
-   (515, "isOfFileType('.h5', startdistfile) || isOfFileType('.hdf5', startdistfile)"%string);
-   (522, "grid_t1 == nullptr"%string);
-   (526, "nx != ps_bins"%string);
-   (533, "isOfFileType('.txt', startdistfile)"%string);
-   (565, "verbose"%string);
-   (710, "e1 > 0"%string);
-   (713, "derivationtype == cubic && !(zerobin >= 1 && zerobin <= ps_bins - 2)"%string);
-   (885, "isOfFileType('.h5', ofname) || isOfFileType('.hdf5', ofname)"%string);
-   (919, "ofname.empty()"%string)].
+   (283, "nbunches == 0"%string);
+   (401, "fpclassify(gap) == 2"%string);
+   (419, "verbose && use_csr"%string);
+   (447, "verbose"%string);
+   (495, "startdistfile.empty()"%string);
+   (529, "isOfFileType('.h5', startdistfile) || isOfFileType('.hdf5', startdistfile)"%string);
+   (536, "grid_t1 == nullptr"%string);
+   (540, "nx != ps_bins"%string);
+   (547, "isOfFileType('.txt', startdistfile)"%string);
+   (579, "verbose"%string);
+   (724, "e1 > 0"%string);
+   (727, "derivationtype == cubic && !(zerobin >= 1 && zerobin <= ps_bins - 2)"%string);
+   (899, "isOfFileType('.h5', ofname) || isOfFileType('.hdf5', ofname)"%string);
+   (933, "ofname.empty()"%string)].
 (* opaque statements of the set-up: (n, number of consecutive statements merged into it) *)
 Definition setup_opaque : list (Z * Z) :=
-  [(94, 1); (100, 1); (109, 1); (120, 1); (131, 2); (148, 1); (169, 5); (182, 1); (183, 32); (256, 39); (368, 4); (393, 4); (406, 1); (407, 1); (408, 1); (410, 1); (413, 1); (414, 1); (415, 1); (417, 1); (418, 1); (419, 1); (424, 1); (426, 1); (427, 1); (428, 1); (434, 1); (435, 1); (439, 1); (442, 1); (443, 1); (444, 1); (446, 1); (458, 1); (471, 1); (490, 3); (499, 1); (517, 1); (523, 1); (527, 1); (534, 1); (539, 1); (553, 2); (558, 2); (566, 1); (567, 1); (568, 1); (615, 3); (674, 9); (700, 1); (706, 2); (712, 1); (715, 1); (720, 9); (738, 2); (750, 2); (758, 2); (767, 1); (777, 4); (807, 2); (884, 1); (887, 2); (891, 1); (894, 2); (897, 2); (906, 1); (920, 1); (922, 1); (928, 1)].
+  [(94, 1); (100, 1); (109, 1); (120, 1); (131, 2); (148, 1); (169, 5); (182, 1); (183, 32); (256, 6); (284, 1); (290, 33); (382, 4); (407, 4); (420, 1); (421, 1); (422, 1); (424, 1); (427, 1); (428, 1); (429, 1); (431, 1); (432, 1); (433, 1); (438, 1); (440, 1); (441, 1); (442, 1); (448, 1); (449, 1); (453, 1); (456, 1); (457, 1); (458, 1); (460, 1); (472, 1); (485, 1); (504, 3); (513, 1); (531, 1); (537, 1); (541, 1); (548, 1); (553, 1); (567, 2); (572, 2); (580, 1); (581, 1); (582, 1); (629, 3); (688, 9); (714, 1); (720, 2); (726, 1); (729, 1); (734, 9); (752, 2); (764, 2); (772, 2); (781, 1); (791, 4); (821, 2); (898, 1); (901, 2); (905, 1); (908, 2); (911, 2); (920, 1); (934, 1); (936, 1); (942, 1)].
 (* observer options (verbosity): variables of main() initialised by opts.getVerbosity() *)
 Definition observer_vars : list string :=
   ["verbose"%string].
 (* opaque conditions of the set-up that read an observer option *)
 Definition setup_observer_conds : list Z :=
-  [405; 433; 565].
+  [419; 447; 579].
 (* opaque statements / conditions of the set-up the translator found pure (only const member functions of objects declared outside,
    writes to log sinks, block-local and report-only variables): everything under an observer guard has to be in this list *)
 Definition setup_pure_opaque : list Z :=
-  [182; 405; 406; 407; 408; 410; 413; 414; 415; 417; 418; 419; 424; 426; 427; 428; 433; 434; 435; 439; 442; 443; 444; 446; 458; 565; 566; 567; 568].
+  [182; 419; 420; 421; 422; 424; 427; 428; 429; 431; 432; 433; 438; 440; 441; 442; 447; 448; 449; 453; 456; 457; 458; 460; 472; 579; 580; 581; 582].
 (* what the statements / conditions under an observer guard of the set-up do: (n, effects) *)
 Definition setup_observed_effects : list (Z * list oeff) :=
-  [(405, []);
-   (406, []);
-   (407, []);
-   (408, []);
-   (410, []);
-   (413, []);
-   (414, []);
-   (415, []);
-   (417, []);
-   (418, []);
-   (419, []);
+  [(419, []);
+   (420, []);
+   (421, []);
+   (422, []);
    (424, []);
-   (426, []);
    (427, []);
    (428, []);
+   (429, []);
+   (431, []);
+   (432, []);
    (433, []);
-   (434, []);
-   (435, []);
-   (439, []);
+   (438, []);
+   (440, []);
+   (441, []);
    (442, []);
-   (443, []);
-   (444, []);
-   (446, [OConst "opts"%string "getStepsPerTrev"%string]);
+   (447, []);
+   (448, []);
+   (449, []);
+   (453, []);
+   (456, []);
+   (457, []);
    (458, []);
-   (565, []);
-   (566, []);
-   (567, []);
-   (568, [])].
+   (460, [OConst "opts"%string "getStepsPerTrev"%string]);
+   (472, []);
+   (579, []);
+   (580, []);
+   (581, []);
+   (582, [])].
 (* variables assigned under an observer guard whose every use only reports (log, /Info attribute, other such variables) *)
 Definition report_only_vars : list string :=
   ["shield"%string].
@@ -457,7 +463,7 @@ Definition setup_point_names : list string :=
   ["setup:handler_installed"%string; "setup:options_parsed"%string; "setup:nothing_to_do_passed"%string; "setup:display_made"%string; "setup:device_chosen"%string; "setup:machine_parameters"%string; "setup:scaling_done"%string; "setup:parameters_reported"%string; "setup:grid_made"%string; "setup:initial_renormalisation"%string; "setup:grids_copied"%string; "setup:before_rf"%string; "setup:rf_made"%string; "setup:before_drift"%string; "setup:drift_made"%string; "setup:fp_made"%string; "setup:wake_impedance"%string; "setup:rdtn_impedance"%string; "setup:rdtn_field"%string; "setup:wake_made"%string; "setup:tracking_loaded"%string; "setup:before_file"%string; "setup:config_saved"%string; "setup:file_created"%string; "setup:options_in_file"%string; "setup:file_parameters"%string; "setup:outputs_ready"%string].
 (* every reference to Display::abort in main(): (source line, is a write, lies in the translated part) *)
 Definition abort_refs : list (Z * bool * bool) :=
-  [(908, true, false); (1003, false, true); (1219, false, true)].
+  [(922, true, false); (1017, false, true); (1233, false, true)].
 (* every write of Display::abort outside main.cpp (each one is `abort = true`; anything else fails the translation) *)
 Definition abort_writes_elsewhere : list (string * Z) :=
   [("inc/IO/Display.hpp"%string, 115); ("src/IO/Display.cpp"%string, 134)].
